@@ -23,6 +23,9 @@
      invariant; S4 from C16_intersect_rows with labels 2,3; S5 from pos_ok), the nest induction
      over the populate prefix (C16_nest_spec), destination-side addressing against z before /
      after (zs = true), the projection level (matched-rank events), and the glue for them.
+   Round 7: C16_retry_endcollect; C16_nest_spec / C16_nest (populate prefix, both sources);
+     C16_model_meets_spec_populate.  Missing for the full statement: addressing of the rows of
+     populate_read / populate_write against z before / after the run, and the projection level.
    NOT proved (checked by the oracle c16_holds on the implementation's files and, as verdict
    bit 4, on the model's files for every generated case): the hypotheses of C16_level_spec for
    `&` levels (yielded elements = lookup intersection, locality of its events) and for `<<`
@@ -32,7 +35,8 @@ From Coq Require Import ZArith List Bool.
 From FT Require Import Model.Base Model.Obs Model.C16Metrics Model.C16Nest Model.C16Check
                        Proofs.C16MetricsP Proofs.C16CheckP Proofs.C16AndP
                        Proofs.C16CoreP Proofs.C16RefP Proofs.C16NestP Proofs.C16PlainP
-                       Proofs.C16AndLevelP Proofs.C16EagerP Proofs.C16GlueP Proofs.C16PopP.
+                       Proofs.C16AndLevelP Proofs.C16EagerP Proofs.C16GlueP Proofs.C16PopP
+                       Proofs.C16PopNestP Proofs.C16Glue2P.
 Import ListNotations.
 Open Scope Z_scope.
 
@@ -86,7 +90,7 @@ Print Assumptions C16_model_header.
    returns exactly B. *)
 Theorem C16_model_flush_consumable : forall c,
   let B := files_of c (exec 0 (init_state (k_keys c) true false) (fst (c16_events c))) in
-  c16_model c = VL [ VL (map (fun _ => B) (k_thresholds c)); VL [B; B];
+  c16_model c = VL [ VL (map (fun _ => B) (k_thresholds c)); VL [B; B; B; B];
                      match snd (c16_events c) with Some t => V_tree t | None => VL [] end ].
 Proof. exact model_flush_consumable. Qed.
 Print Assumptions C16_model_flush_consumable.
@@ -319,6 +323,64 @@ Theorem C16_pop_level_core : forall n tr i s u zu sh lv' pt e (body : body_t) ze
   /\ linv (S i) (snd (snd res)) /\ ftyp dz (p_z (fst (snd res))).
 Proof. exact pop_level_core. Qed.
 Print Assumptions C16_pop_level_core.
+
+(* Round 7.  C16_retry_endcollect: an endCollect() that raises because a consumable trace still
+   holds rows has flushed the traces it visited; consuming the rest and calling endCollect() again
+   leaves exactly the files and the consumable rows of a collection that ended at once. *)
+Theorem C16_retry_endcollect : forall c st,
+  files_of c (end_attempt st) = files_of c st /\ mems_of c (end_attempt st) = mems_of c st.
+Proof. exact end_attempt_obs. Qed.
+Print Assumptions C16_retry_endcollect.
+
+(* C16_nest_spec / C16_nest: the nest theorem for EVERY level kind except the projection level -
+   a prefix of populate levels  z_i << x_i  or  z_i << (x_i & y_i)  (compressed or uncompressed
+   source and destination ranks, inserting or appending, with the saved-stamp rows and the shift
+   phase of populate_read / populate_write) followed by eager levels.  From a state whose counter
+   vector is P ++ 0..0: vector restored, loop_order = 0..d-1, header when a rank is first
+   registered, stamps ordered in every trace (strictly for iter), and the rows of the iter,
+   intersect_<l> and populate_<source> traces equal to the reference iteration space
+   (zs = false: the rows of populate_read / populate_write are ordered but not addressed).
+   Hypotheses: the populated tree has the depth of the populate prefix; operand trees strictly
+   sorted; [nest_pos_ok] = the complement of known-finding region 1. *)
+Theorem C16_nest_spec : forall n tr zshape m lv, pnest lv = true ->
+  forall nz i pt e z, length pt = i -> nz = (i + n_pop lv)%nat -> labinv i z -> zty (n_pop lv) z ->
+  env_ok e -> nest_pos_ok tr i lv e ->
+  spec false tr n i lv pt e (fst (run tr zshape nz m lv i pt e z)).
+Proof. exact pnest_spec_gen. Qed.
+Print Assumptions C16_nest_spec.
+
+Theorem C16_nest : forall n tr zshape m lv keys m0 e zt,
+  pnest lv = true -> depth_ok (n_pop lv) zt = true -> env_ok e -> nest_pos_ok tr 0 lv e ->
+  let evs := fst (run tr zshape (n_pop lv) m lv 0 [] e {| th_z := Some zt; th_lab := lab0 |}) in
+  let st' := exec n (init_state keys true m0) evs in
+  let d := dr lv [([], e)] in
+  m_lo st' = iota d
+  /\ forall kk, In kk keys -> exists data,
+       content st' kk = Some (hdrs kk 0 d ++ data) /\ rows_ok false tr 0 [] lv [] e kk data.
+Proof. exact pnest_top. Qed.
+Print Assumptions C16_nest.
+
+(* C16_model_meets_spec_populate: the whole oracle for well-formed cases outside region 1 whose
+   nest has no projection level and that register no destination-side (populate_read /
+   populate_write) trace. *)
+Theorem C16_model_meets_spec_populate : forall c,
+  c16_wf c = true -> c16_region c = 0 -> pnest (k_levels c) = true ->
+  forallb (fun k => negb (is_zside (key_kind k))) (k_keys c) = true ->
+  c16_holds c (c16_model c) = true.
+Proof. exact model_meets_spec_pnest. Qed.
+Print Assumptions C16_model_meets_spec_populate.
+
+Example C16_model_meets_spec_populate_nonvacuous :
+  let c := {| k_levels := [ {| l_pop := true; l_src := SAnd 0 1; l_ufmt := false; l_zufmt := false; l_proj := None; l_shape := 4 |};
+                            {| l_pop := false; l_src := SFib 1; l_ufmt := false; l_zufmt := false; l_proj := None; l_shape := 3 |} ];
+              k_inputs := [ Node [(0, Node [(0, Leaf 1)]); (2, Node [(1, Leaf 2)])];
+                            Node [(0, Node [(1, Leaf 3)]); (1, Node [(0, Leaf 1)]); (2, Node [(0, Leaf 4); (1, Leaf 5)])] ];
+              k_z := Node [(1, Leaf 7); (3, Leaf 2)]; k_zshape := [4]; k_skip := 0;
+              k_keys := [(0,0,0); (0,1,2); (0,1,3); (0,2,1); (1,0,0)];
+              k_thresholds := [2; 1000] |} in
+  c16_wf c = true /\ c16_region c = 0 /\ pnest (k_levels c) = true
+  /\ forallb (fun k => negb (is_zside (key_kind k))) (k_keys c) = true.
+Proof. vm_compute. auto. Qed.
 
 (* C16_model_meets_spec, full statement (NOT proved):
      forall c, c16_wf c = true -> c16_region c = 0 -> c16_holds c (c16_model c) = true
